@@ -352,6 +352,11 @@ const prelude = `(set-option :produce-models true)
 (assert (forall ((e Iface)) (! (wraps_ e e) :pattern ((wraps_ e e)))))
 (declare-fun i2f_ (Int) F64)
 (declare-fun f2i_ (F64) Int)
+(declare-fun imul_ (Int Int) Int)
+(assert (forall ((a Int) (b Int)) (! (= (imul_ a b) (imul_ b a)) :pattern ((imul_ a b)))))
+(assert (forall ((a Int)) (! (= (imul_ a 0) 0) :pattern ((imul_ a 0)))))
+(assert (forall ((a Int) (b Int)) (! (= (imul_ a (+ b 1)) (+ (imul_ a b) a)) :pattern ((imul_ a (+ b 1))))))
+(assert (forall ((a Int) (b Int)) (! (=> (and (<= 0 a) (<= 0 b)) (<= 0 (imul_ a b))) :pattern ((imul_ a b)))))
 (define-fun gdiv ((a Int) (b Int)) Int (ite (>= a 0) (ite (> b 0) (div a b) (- (div a (- b)))) (ite (> b 0) (- (div (- a) b)) (div (- a) (- b)))))
 (define-fun gmod ((a Int) (b Int)) Int (ite (>= a 0) (mod a (abs b)) (- (mod (- a) (abs b)))))
 `
